@@ -30,13 +30,10 @@ def runeStarts : Nat → Bytes → Nat → List Nat
   | 0, b :: rest, pos => pos :: runeStarts (runeSize (b :: rest) - 1) rest (pos + 1)
   | k + 1, _ :: rest, pos => runeStarts k rest (pos + 1)
 
-/-- the gathered ranges as the spec sees them: one group -/
-def candsAsRanges (l : List Cand) : List RRange := l.map fun c => ⟨c.fileName, c.off, c.sz⟩
-
 def parseKind (s : String) : Option QKind :=
   if s == "multi" then some .multi
   else if s == "occs" then some .occs
-  else if s == "re" then some .regexp
+  else if s.startsWith "re:" then (parsePairs (s.drop 3).toString).map .regexp
   else if s.startsWith "sub:" then (hexToBytes? (s.drop 4).toString).map .substr
   else none
 
@@ -51,15 +48,7 @@ def handle (line : String) : String :=
       match parseCands impl with
       | none => badCase "impl cands"
       | some got =>
-        -- statement on the implementation's output: ordered, disjoint, each one a candidate of a visited atom
-        let visited := collect atoms
-        let src := if visited.isEmpty then [⟨true, 0, name.length⟩] else visited
-        let fn := candsAsRanges (got.filter (·.fileName))
-        let ct := candsAsRanges (got.filter (!·.fileName))
-        if !(orderedDisjoint fn && orderedDisjoint ct) then specFail model "gather-order"
-        else if !(got.all fun c => src.contains c) then specFail model "gather-not-a-candidate"
-        else if !(isSortedCands got) then specFail model "gather-filename-first"
-        else answer model
+        if checkGather name (collect atoms) got then answer model else specFail model "gather"
     | _, _ => badCase "gather fields"
   -- brk <textHex> <cands>
   | ["brk", textHex, cands] =>
